@@ -2323,3 +2323,48 @@ where
         }
     })
 }
+
+//@@ octo-squirrel-client/src/client/template.rs:294-301  fn new_plain_outbound  sha=09673406cd095822
+fn new_plain_outbound<C, E, D>(host: &str, port: u16, codec: C, Tracked(vlog): Tracked<&mut TransportLog>) -> Result<Framed<TcpStream, C>, anyhow::Error>
+where
+    C: Encoder<E, Error = anyhow::Error> + Decoder<Item = D, Error = anyhow::Error>,
+{
+    let outbound = TcpStream::connect((host, port), Tracked(vlog))?;
+    let client_server = codec.framed(outbound);
+    Ok(client_server)
+}
+
+//@@ octo-squirrel-client/src/client/template.rs:318-324  fn new_tls_outbound  sha=70960c9746a9bdb7
+fn new_tls_outbound<C, E, D>(host: &str, port: u16, codec: C, ssl_config: &SslConfig, Tracked(vlog): Tracked<&mut TransportLog>) -> Result<Framed<TlsStream<TcpStream>, C>>
+where
+    C: Encoder<E, Error = anyhow::Error> + Decoder<Item = D, Error = anyhow::Error>,
+{
+    let outbound = rustls_stream(host, port, ssl_config, Tracked(vlog))?;
+    Ok(codec.framed(outbound))
+}
+
+//@@ octo-squirrel-client/src/client/template.rs:326-333  fn new_ws_outbound  sha=82dae80f08bff00b
+fn new_ws_outbound<C, E, D>(host: &str, port: u16, codec: C, ws_config: &WebSocketConfig, Tracked(vlog): Tracked<&mut TransportLog>) -> Result<WebSocketFramed<TcpStream, C, E, D>>
+where
+    C: Encoder<E, Error = anyhow::Error> + Decoder<Item = D, Error = anyhow::Error>,
+{
+    let outbound = TcpStream::connect((host, port), Tracked(vlog))?;
+    let (outbound, _) = new_ws_builder(host, port, ws_config)?.connect_on(outbound, Tracked(vlog)).map_err(|e| verif_err())?;
+    Ok(WebSocketFramed::new(outbound, codec))
+}
+
+//@@ octo-squirrel-client/src/client/template.rs:335-348  fn new_wss_outbound  sha=1e8658c59e113840
+fn new_wss_outbound<C, E, D>(
+    host: &str,
+    port: u16,
+    codec: C,
+    ssl_config: &SslConfig,
+    ws_config: &WebSocketConfig,Tracked(vlog): Tracked<&mut TransportLog>
+) -> Result<WebSocketFramed<TlsStream<TcpStream>, C, E, D>>
+where
+    C: Encoder<E, Error = anyhow::Error> + Decoder<Item = D, Error = anyhow::Error>,
+{
+    let outbound = rustls_stream(host, port, ssl_config, Tracked(vlog))?;
+    let (outbound, _) = new_ws_builder(host, port, ws_config)?.connect_on(outbound, Tracked(vlog)).map_err(|e| verif_err())?;
+    Ok(WebSocketFramed::new(outbound, codec))
+}
